@@ -345,25 +345,6 @@ theorem parseK_range (d : Dict) : -1 ≤ parseK d ∧ parseK d ≤ maxInt := by
     · omega
     · split <;> omega
 
-/-- **parse_clamps (CCITTFax)**: for EVERY dictionary the parsed filter passes
-`FilterCCITTFax.validate`; `Columns` is in `[1, 2^20]` (never the 0 shorthand), `Rows` and
-`DamagedRowsBeforeError` in `[0, 2^20]`, `K` in `[-1, maxInt]` -/
-theorem parse_clamps_ccitt (d : Dict) :
-    (parseCCITTFax d).validate = true ∧
-    1 ≤ (parseCCITTFax d).columns ∧ (parseCCITTFax d).columns ≤ 1048576 ∧
-    0 ≤ (parseCCITTFax d).rows ∧ (parseCCITTFax d).rows ≤ 1048576 ∧
-    -1 ≤ (parseCCITTFax d).k ∧ (parseCCITTFax d).k ≤ maxInt := by
-  have hm : maxDimV = 1048576 := by decide
-  obtain ⟨c0, c1, c2⟩ := parseDim_range d kColumns 1728 (by omega) (by omega)
-  obtain ⟨r0, r1, _⟩ := parseDim_range d kRows 0 (by omega) (by omega)
-  obtain ⟨d0, d1, _⟩ := parseDim_range d kDamaged 0 (by omega) (by omega)
-  obtain ⟨k0, k1⟩ := parseK_range d
-  have c3 := c2 (by omega)
-  refine ⟨?_, by simp [parseCCITTFax]; omega, by simp [parseCCITTFax]; omega, by simp [parseCCITTFax]; omega,
-    by simp [parseCCITTFax]; omega, by simp [parseCCITTFax]; omega, by simp [parseCCITTFax]; exact k1⟩
-  simp [FCCITT.validate, parseCCITTFax, hm]
-  omega
-
 /-- **geometry clamp**: for every `Columns` value the row cap is at least 1 and at most
 `MaxImageHeight` — the clamp can never produce 0 ("no limit") -/
 theorem geoMax_pos (cols : Int) : 1 ≤ geoMax cols ∧ geoMax cols ≤ (Gen.limits_MaxImageHeight : Int) := by
@@ -371,6 +352,40 @@ theorem geoMax_pos (cols : Int) : 1 ≤ geoMax cols ∧ geoMax cols ≤ (Gen.lim
   unfold geoMax
   rw [hh]
   omega
+
+/-- **parse_clamps (CCITTFax)**: for EVERY dictionary the parsed filter passes
+`FilterCCITTFax.validate`; `Columns` is in `[1, 2^20]` (never the 0 shorthand), `Rows` in
+`[0, ccittMaxRows(Columns)]` (hence at most `MaxImageHeight`), `DamagedRowsBeforeError` in
+`[0, 2^20]`, `K` in `[-1, maxInt]` -/
+theorem parse_clamps_ccitt (d : Dict) :
+    (parseCCITTFax d).validate = true ∧
+    1 ≤ (parseCCITTFax d).columns ∧ (parseCCITTFax d).columns ≤ 1048576 ∧
+    0 ≤ (parseCCITTFax d).rows ∧ (parseCCITTFax d).rows ≤ 1048576 ∧
+    -1 ≤ (parseCCITTFax d).k ∧ (parseCCITTFax d).k ≤ maxInt ∧
+    (parseCCITTFax d).rows ≤ geoMax (parseCCITTFax d).cols := by
+  have hm : maxDimV = 1048576 := by decide
+  obtain ⟨c0, c1, c2⟩ := parseDim_range d kColumns 1728 (by omega) (by omega)
+  obtain ⟨r0, r1, _⟩ := parseDim_range d kRows 0 (by omega) (by omega)
+  obtain ⟨d0, d1, _⟩ := parseDim_range d kDamaged 0 (by omega) (by omega)
+  obtain ⟨k0, k1⟩ := parseK_range d
+  have c3 := c2 (by omega)
+  obtain ⟨g1, g2⟩ := geoMax_pos (parseDim d kColumns 1728)
+  have hcols : (parseCCITTFax d).cols = parseDim d kColumns 1728 := by
+    show (if parseDim d kColumns 1728 = 0 then 1728 else parseDim d kColumns 1728) = _
+    have hne : ¬ (parseDim d kColumns 1728 = 0) := by omega
+    rw [if_neg hne]
+  have hrows : (parseCCITTFax d).rows = min (parseDim d kRows 0) (geoMax (parseDim d kColumns 1728)) := rfl
+  refine ⟨?_, by simp [parseCCITTFax]; omega, by simp [parseCCITTFax]; omega, by rw [hrows]; omega,
+    by rw [hrows]; omega, by simp [parseCCITTFax]; omega, by simp [parseCCITTFax]; exact k1, by rw [hrows, hcols]; omega⟩
+  unfold FCCITT.validate
+  rw [hcols, hrows]
+  have e1 : ¬ ((parseCCITTFax d).columns < 0 ∨ (parseCCITTFax d).columns > maxDimV) := by
+    simp only [parseCCITTFax, hm]; omega
+  have e2 : ¬ (min (parseDim d kRows 0) (geoMax (parseDim d kColumns 1728)) < 0 ∨
+      min (parseDim d kRows 0) (geoMax (parseDim d kColumns 1728)) > geoMax (parseDim d kColumns 1728)) := by omega
+  have e3 : ¬ ((parseCCITTFax d).damaged < 0 ∨ (parseCCITTFax d).damaged > maxDimV) := by
+    simp only [parseCCITTFax, hm]; omega
+  rw [if_neg e1, if_neg e2, if_neg e3]
 
 theorem decodeMaxRows_pos (f : FCCITT) :
     1 ≤ f.decodeMaxRows ∧ f.decodeMaxRows ≤ (Gen.limits_MaxImageHeight : Int) ∧ f.decParams.maxRows ≠ 0 := by
@@ -617,7 +632,9 @@ theorem decode_rows_bounded (f : FCCITT) (data : Bytes) :
   · unfold decodeRows; simp only []; omega
   · unfold FCCITT.decodeMaxRows; simp only []; split <;> omega
 
-example : ((decodeRows (⟨-1, false, false, 8, 1048576, true, false, 0⟩ : FCCITT).decParams (List.replicate 4 255)).1.length) = 27 := by
+-- 32 one-bit rows (V0 codes) in four bytes, no EOFB: all of them are delivered (the unrepaired
+-- reader lost the last five to its look-ahead, class `ccitt-noeob`)
+example : ((decodeRows (⟨-1, false, false, 8, 65536, true, false, 0⟩ : FCCITT).decParams (List.replicate 4 255)).1.length) = 32 := by
   decide +kernel
 example : (⟨-1, false, false, 1048576, 1048576, true, false, 0⟩ : FCCITT).decParams.maxRows = 128 := by decide
 
@@ -644,7 +661,7 @@ theorem jbig2_cap_literals_pinned :
     Gen.filter_FilterJBIG2_Decode_lits = [1, 1, 0, 255] ∧ Gen.limits_MaxJBIG2PageBytes = 67108864 ∧
     Gen.limits_MaxJBIG2GlobalsBytes = 8388608 := by decide
 
-example : jbig2InputCap (streamBudget 300) = 8695808 := by decide
+example : jbig2InputCap (streamBudget 300) = (Gen.limits_StreamBudgetBase : Int) + 307200 := by decide
 
 /-! ### inline literals of the anchored Go functions
 
@@ -670,6 +687,8 @@ theorem inline_literals_pinned :
     Gen.filter_FilterFlate_toDict_lits = [0, 0, 1, 0, 8, 0, 1, 0] ∧
     Gen.filter_FilterCCITTFax_Info_lits = [0, 0, 1728, 0, 0, 0] ∧
     Gen.filter_FilterCCITTFax_Decode_lits = [1, 1, 0] ∧
+    Gen.filter_FilterCCITTFax_Encode_lits = [0] ∧
+    Gen.filter_FilterCCITTFax_validate_lits = [1048576, 0, 0, 1728, 0, 0] ∧
     Gen.filter_FilterCCITTFax_toParams_lits = [0, 1728] ∧
     Gen.filter_FlatePredictor_isValid_lits = [0] ∧
     Gen.filter_appendFilter_lits = [0, 0, 0, 0, 0] ∧
@@ -677,8 +696,10 @@ theorem inline_literals_pinned :
     Gen.ccitt_NewReaderRaw_lits = [0, 1728, 0, 7, 8, 0, 255, 0, 0] ∧
     Gen.ccitt_Reader_decodeG4ScanLine_lits = [24, 4097, 24] ∧
     Gen.ccitt_Reader_decodeG3ScanLine1D_lits = [0, 0, 0, 0, 6] ∧
-    Gen.ccitt_Reader_decodeG3ScanLine2D_lits = [11, 0, 11, 1, 1] ∧
-    Gen.ccitt_Reader_decodeFullRun_lits = [0, 64] ∧
+    Gen.ccitt_Reader_decodeG3ScanLine2D_lits = [11, 0, 11, 1, 1, 11, 0, 0] ∧
+    Gen.ccitt_Reader_decodeFullRun_lits = [0, 64, 2] ∧
+    Gen.ccitt_Reader_peekBits_lits = [24, 8, 24, 8, 32] ∧
+    Gen.ccitt_Reader_consumeBits_lits = [] ∧
     Gen.ccitt_Reader_decodeRun_lits = [12, 13, 0, 0] ∧
     Gen.ccitt_Reader_decode2D_lits = [0, 0, 1, 2, 1, 7, 11, 0, 0, 1, 0, 1, 0, 1, 1] ∧
     Gen.ccitt_NewWriter_lits = [0, 1728, 0, 7, 8, 0, 0, 255, 0] ∧
